@@ -53,23 +53,23 @@ type Divergence struct {
 }
 
 type CaseResult struct {
-	Cases       int            `json:"cases"`
-	Requests    int            `json:"requests"`
-	Checks      int            `json:"checks"`
-	Worlds      int            `json:"worlds"`
-	Rebuilds    int            `json:"rebuilds"`
-	Denied      int            `json:"denied"`         // answered 401/403 by the middleware
-	ServedOK    int            `json:"served_2xx"`     // passed the middleware, 2xx
-	PassedNoEff int            `json:"passed_no_2xx"`  // passed the middleware, handler answered non-2xx
-	Changed     int            `json:"state_changed"`  // requests after which the engine state differed
-	AnyOutcome  int            `json:"outcome_any"`    // requests whose outcome the specification leaves open
-	Skipped     int            `json:"skipped_slow"`   // slow handlers not run with an accepted token
-	NoRoute     int            `json:"no_route"`       // cases whose shape has no concrete route in this tree
-	Divergences []Divergence   `json:"divergences"`
-	Errors      []string       `json:"errors"`
-	Ineffective []string       `json:"ineffective"` // mutation routes on which even the root token changed nothing
-	Effective   []string       `json:"effective"`   // mutation routes seen to change state with an allowed token
-	ByKind      map[string]int `json:"-"`
+	Cases       int          `json:"cases"`
+	Requests    int          `json:"requests"`
+	Checks      int          `json:"checks"`
+	Worlds      int          `json:"worlds"`
+	Rebuilds    int          `json:"rebuilds"`
+	Denied      int          `json:"denied"`        // answered 401/403 by the middleware
+	ServedOK    int          `json:"served_2xx"`    // passed the middleware, 2xx
+	PassedNoEff int          `json:"passed_no_2xx"` // passed the middleware, handler answered non-2xx
+	Changed     int          `json:"state_changed"` // requests after which the engine state differed
+	AnyOutcome  int          `json:"outcome_any"`   // requests whose outcome the specification leaves open
+	Skipped     int          `json:"skipped_slow"`  // slow handlers not run with an accepted token
+	NoRoute     int          `json:"no_route"`      // cases whose shape has no concrete route in this tree
+	Divergences []Divergence `json:"divergences"`
+	Errors      []string     `json:"errors"`
+	Ineffective []string     `json:"ineffective"` // mutation routes on which even the root token changed nothing
+	Effective   []string     `json:"effective"`   // mutation routes seen to change state with an allowed token
+	Log         []string     `json:"log,omitempty"`
 }
 
 func hash64(s string) uint64 {
@@ -222,12 +222,12 @@ func runCases(p Profile, cases []Case) *CaseResult {
 				res.NoRoute++
 				continue
 			}
-			tok, ok := w.Toks.get(c.Tok)
-			if !ok {
-				res.Errors = append(res.Errors, "no token for "+tokKey(c.Tok))
-				continue
-			}
 			for _, rt := range routes {
+				tok, ok := w.Toks.get(c.Tok) // tokens are re-minted with every rebuild of the world
+				if !ok {
+					res.Errors = append(res.Errors, "no token for "+tokKey(c.Tok))
+					break
+				}
 				if rt.Slow && p.SkipSlow && c.Outcome != "deny" && !(c.Tok.Kind == "root" && c.Tok.State == "valid") {
 					res.Skipped++
 					continue
@@ -236,6 +236,17 @@ func runCases(p Profile, cases []Case) *CaseResult {
 				path, body := rt.Build(cx)
 				rq := Req{Method: rt.Method, Path: path, Body: encodeBody(body, c.Body, w.Own), Auth: bearer(tok), Stream: rt.Stream}
 				status, resp := node.do(rq)
+				progress()
+				if rt.Async && status == 202 {
+					// the handler answered with a task and works in the background: wait for it before
+					// reading the engine (DB.GetVector re-enters DB.mu.RLock and deadlocks against a waiting writer)
+					var task struct {
+						ID string `json:"id"`
+					}
+					if json.Unmarshal([]byte(resp), &task) == nil && task.ID != "" {
+						node.waitTask(task.ID)
+					}
+				}
 				after, afterDoc := w.settle(rt.Async && status != 401 && status != 403)
 				res.Requests++
 				changed := after != w.baseline
@@ -257,6 +268,9 @@ func runCases(p Profile, cases []Case) *CaseResult {
 				}
 				detail := fmt.Sprintf("why=%s class=%s method=%s src=%s tail=%s name=%s body=%s target=%s tok=%s route=%q word=%q status=%d changed=%v leak=%v",
 					c.Why, c.Shape.Class, c.Shape.Method, c.Shape.Src, c.Shape.Tail, c.Name, c.Body, c.Target, tokKey(c.Tok), rt.Pattern, j.v.Word, status, changed, leak)
+				if p.Log {
+					res.Log = append(res.Log, detail+" resp="+firstLine(resp))
+				}
 				kind := ""
 				res.Checks++
 				switch c.Outcome {
